@@ -314,6 +314,13 @@ impl SplitCtx {
             blob_index_size,
         }
     }
+
+    /// Start over at the beginning of the current block, with an empty blob index.
+    pub fn reset(&mut self) {
+        self.current_blob_index.reset();
+        self.current_blob_block_offset = 0;
+        self.current_part_blob_offset = self.blob_index_size;
+    }
 }
 
 #[derive(Debug)]
